@@ -256,6 +256,11 @@ fn gen_cases(seed: u64, tier: &str) -> Vec<(Case, &'static str)> {
         let mut near = pool[0];
         near[r.below(32) as usize] ^= 1 << r.below(8);
         pool.push(near);
+        // the digests a "this can never be a real hash" shortcut would pick as an in-band marker: all zeros, all ones
+        if r.chance(1, 3) {
+            pool.push([0u8; 32]);
+            pool.push([0xffu8; 32]);
+        }
         let mut pick = |r: &mut Rng| -> Fp {
             if r.chance(1, 5) {
                 None
